@@ -25,12 +25,13 @@ type Engine struct {
 	cs          *ContractSet
 	loopOrdMemo map[*FuncInfo]map[token.Pos]int
 	loadErrs    []string
+	keyTags     map[string]int
 }
 
 const modPath = "github.com/bandprotocol/chain/v3"
 
 func NewEngine(repo, verif string) *Engine {
-	return &Engine{repo: repo, verif: verif, pkgs: map[string]*packages.Package{}, funcs: map[string]*FuncInfo{}, cs: NewContractSet(), loopOrdMemo: map[*FuncInfo]map[token.Pos]int{}}
+	return &Engine{repo: repo, verif: verif, pkgs: map[string]*packages.Package{}, funcs: map[string]*FuncInfo{}, cs: NewContractSet(), loopOrdMemo: map[*FuncInfo]map[token.Pos]int{}, keyTags: map[string]int{}}
 }
 
 // Load loads the given package directories (relative to the repo root) with full type info.
@@ -262,7 +263,7 @@ func (e *Engine) VerifyFunc(prop, key string) (rep *FuncReport, obls []*Obligati
 	if c == nil {
 		c = &FuncContract{Key: key, Loops: map[int]*LoopSpec{}, Flags: map[string]string{}, Asserts: map[int][]*Clause{}}
 	}
-	fc := &FCtx{E: e, U: NewUniverse(), FI: fi, C: c, Prop: prop, counters: map[string]int{}, assumed: map[string]bool{}, inlined: map[string]bool{}, specDecl: map[string]bool{}}
+	fc := &FCtx{E: e, U: NewUniverse(), FI: fi, C: c, Prop: prop, counters: map[string]int{}, assumed: map[string]bool{}, inlined: map[string]bool{}, specDecl: map[string]bool{}, ctxSuffixOf: map[string]string{}}
 	fc.noOverflow = c.Flags["nooverflow"] != ""
 	fc.mayPanic = c.Flags["may_panic"] != ""
 	fc.fpMode = c.Flags["mode"] == "fp"
@@ -408,6 +409,17 @@ func (fc *FCtx) isParam(v *types.Var) bool {
 }
 
 func (fc *FCtx) initGhost(st *State) {
+	var mods []string
+	for p := range fc.E.pkgs {
+		if m := moduleOf(p); m != "" && strings.HasSuffix(p, "/keeper") {
+			mods = append(mods, m)
+		}
+	}
+	sort.Strings(mods)
+	for _, m := range mods {
+		s := fc.U.StoreSort()
+		st.ghost["Store_"+m] = Val{T: fc.U.Const("g0_Store_"+m, s), S: s}
+	}
 	var names []string
 	for n := range fc.E.cs.Ghosts {
 		names = append(names, n)
